@@ -721,3 +721,55 @@ def inline_new_constants(trees: Dict[str, ast.Module]) -> List[str]:
             ast.fix_missing_locations(tree)
             done.append(f"{path.rsplit('/', 1)[-1]}:{nm}")
     return done
+
+
+# ------------------------------------------------------------------------------------------------------------------ renamed methods
+def undo_method_renames(trees: Dict[str, ast.Module]) -> List[str]:
+    """A method the rules (or their frozen tables) know by name that was merely *renamed* - same class, same parameters, same body,
+    old name gone, new name unknown to the reference vocabulary - is presented under its old name (definition and every `.new`
+    attribute reference).  The body is compared with the hash recorded by tools/freeze_vocabulary.py (docstring dropped; recursive
+    self-references would change the hash and are simply not recognised)."""
+    import hashlib
+    import json
+    try:
+        voc = json.load(open(os.path.join(_HERE, "vocabulary.json")))
+    except (OSError, ValueError):
+        return []
+    bodies: Dict[str, str] = voc.get("method_bodies", {})
+    known = set(voc.get("functions", []))
+    if not bodies:
+        return []
+
+    def h(fn: ast.AST) -> str:
+        body = [st for st in fn.body if not (isinstance(st, ast.Expr) and isinstance(st.value, ast.Constant) and isinstance(st.value.value, str))]
+        return hashlib.sha1((ast.dump(fn.args) + "|" + "|".join(ast.dump(b) for b in body)).encode()).hexdigest()[:16]
+
+    by_class: Dict[str, Dict[str, str]] = {}
+    for q, hv in bodies.items():
+        c, m = q.split(".", 1)
+        by_class.setdefault(c, {})[m] = hv
+    renames: Dict[str, str] = {}
+    done: List[str] = []
+    for tree in trees.values():
+        for c in ast.walk(tree):
+            if not isinstance(c, ast.ClassDef) or c.name not in by_class:
+                continue
+            present = {m.name for m in c.body if isinstance(m, (ast.FunctionDef, ast.AsyncFunctionDef))}
+            missing = {m: hv for m, hv in by_class[c.name].items() if m not in present}
+            if not missing:
+                continue
+            for m in c.body:
+                if isinstance(m, (ast.FunctionDef, ast.AsyncFunctionDef)) and m.name not in known and m.name not in by_class[c.name]:
+                    hv = h(m)
+                    olds = [o for o, ohv in missing.items() if ohv == hv]
+                    if len(olds) == 1 and m.name not in renames:
+                        renames[m.name] = olds[0]
+                        done.append(f"{c.name}.{m.name} -> {olds[0]}")
+                        m.name = olds[0]
+                        del missing[olds[0]]
+    if renames:
+        for tree in trees.values():
+            for n in ast.walk(tree):
+                if isinstance(n, ast.Attribute) and n.attr in renames:
+                    n.attr = renames[n.attr]
+    return done
